@@ -396,9 +396,63 @@ pub fn deterministic() -> Vec<RawCase> {
     out
 }
 
+/// Constructs far deeper and longer than any generated tree (nesting 10..1000, thorough 5000; chains of
+/// 10..1000 `.elif` arms), sizes on both sides of 2^8; the selected lines are known by construction.
+pub fn scale_programs(thorough: bool) -> Vec<(String, String, Vec<u16>)> {
+    let mut v = vec![];
+    let mut depths = vec![10usize, 70, 130, 255, 256, 257, 300, 1000];
+    if thorough {
+        depths.push(5000);
+    }
+    for &d in &depths {
+        // taken all the way down, an unselected .else on every level
+        let src: String = (0..d).map(|i| format!(".if 1\n.dw {}\n", i)).collect::<String>() + &".else\n.dw 0xdead\n.endif\n".repeat(d) + ".dw 0xe0d\n";
+        v.push((format!("taken-nest-{}", d), src, (0..d as u16).chain([0xe0d]).collect()));
+        // .else selected on every level
+        let src: String = ".if 0\n.dw 0xdead\n.else\n".repeat(d) + ".dw 7\n" + &".endif\n".repeat(d) + ".dw 0xe0d\n";
+        v.push((format!("else-nest-{}", d), src, vec![7, 0xe0d]));
+        // a nest of that depth inside an unselected branch: the skipping must find the right .else
+        let src: String = ".if 0\n".to_string() + &(0..d).map(|i| [".if 1\n.dw 0xdead\n", ".ifdef NOPE\n.else\n", ".ifndef NOPE\n.dw 0xdead\n"][i % 3]).collect::<String>() + &".endif\n".repeat(d) + ".else\n.dw 9\n.endif\n.dw 0xe0d\n";
+        v.push((format!("skipped-nest-{}", d), src, vec![9, 0xe0d]));
+        // a nest of that depth behind the arm that was taken: none of its .else / .elif lines may be chosen
+        let src: String = ".if 1\n.dw 5\n.else\n".to_string() + &(0..d).map(|i| [".if 1\n.dw 0xdead\n.else\n.dw 0xdead\n", ".if 0\n.elif 1\n.dw 0xdead\n"][i % 2]).collect::<String>() + &".endif\n".repeat(d) + ".endif\n.dw 0xe0d\n";
+        v.push((format!("nest-behind-taken-arm-{}", d), src, vec![5, 0xe0d]));
+    }
+    for &n in &[10usize, 100, 255, 256, 257, 1000] {
+        for k in [Some(0usize), Some(n / 2), Some(n - 1), None] {
+            let kv: i64 = k.map(|x| x as i64).unwrap_or(-2);
+            let src = format!(".equ c08_k = {}\n.if c08_k == -1\n.dw 0xdead\n", kv) + &(0..n).map(|i| format!(".elif c08_k == {}\n.dw {}\n", i, i + 1)).collect::<String>() + ".else\n.dw 0xe15e\n.endif\n.dw 0xe0d\n";
+            v.push((format!("chain-of-{}-arm-{:?}", n, k), src, vec![k.map(|x| x as u16 + 1).unwrap_or(0xe15e), 0xe0d]));
+        }
+    }
+    v
+}
+
+fn scale_leg(total: &mut Ev, thorough: bool) {
+    use rayon::prelude::*;
+    let results: Vec<(String, String, Result<(), String>, serde_json::Value)> = scale_programs(thorough)
+        .into_par_iter()
+        .map(|(tag, src, words)| {
+            let code: Vec<u8> = words.iter().flat_map(|w| w.to_le_bytes()).collect();
+            let chk = Check::Image { src: src.clone(), code: Some(code), eeprom: Some(vec![]), ram_filling: None, sizes: None, messages: Some(vec![]) };
+            let r = chk.eval();
+            (tag, src, r, chk.to_json())
+        })
+        .collect();
+    for (tag, src, r, replay) in results {
+        total.eval();
+        total.class("construct-deeper-or-longer-than-255");
+        total.nt(fp(&src));
+        if let Err(why) = r {
+            total.violation(Violation { sig: format!("c08:scale:{}:{}", tag.rsplitn(2, '-').last().unwrap_or("shape").trim_end_matches(char::is_numeric).trim_end_matches("-of"), kind_of(&why)), what: format!("[{}] {}", tag, crate::run::truncate(&why, 300)), replay });
+        }
+    }
+}
+
 pub fn run(ctx: &Ctx) -> Result<Ev, String> {
     let opts = ModelOpts { devices: model::model_devices() };
     let mut total = Ev::new("C08");
+    scale_leg(&mut total, ctx.thorough);
     let det = deterministic();
     for c in &det {
         if let Err(v) = test(c, &mut total, &opts) {
